@@ -321,6 +321,12 @@ def _wide_c08(args):
         out.append(x_arith.observe_const(fx, np, [pid], op, tx, a, c, rng.choice(['left', 'right']), rng.choice(['same', 'best']),
                                          rng.choice(['same', 'optimal', 'largest', 'smallest']), m1, method=rng.choice(['raw', 'repr']),
                                          history=rng.random() < 0.4))
+        # constants carried by NumPy scalars of narrow types (right-hand side, in-place): integer constants whose scaled value
+        # c * 2^n_frac leaves the range of the carrier type
+        nt = rng.choice(['int8', 'uint8', 'int16', 'uint16', 'int32', 'float16', 'float32', 'int64'])
+        cint = F(rng.choice([1, 2, 3, -1, -2, 5, 100, 127, -128, 200, 255, rng.randint(-40, 40)]))
+        out.append(x_arith.observe_const(fx, np, [pid], op, tx, a, cint, rng.choice(['right', 'inplace']), rng.choice(['same', 'same', 'best']),
+                                         rng.choice(['same', 'optimal', 'largest', 'smallest']), m1, method=rng.choice(['raw', 'repr']), ctype=nt))
         out.append(x_arith.observe_unary(fx, np, [pid], rng.choice(['neg', 'pos', 'abs']), tx, a, m1, ois=rng.choice(['same', 'best'])))
     return [r for r in out if r is not None]
 
